@@ -113,8 +113,10 @@ func whereStored(p *Program, a *ptsAnalysis, obj *aobj) string {
 	return "; stored at " + strings.Join(firstN(sites, 5), ", ")
 }
 
-func c20Marshal(p *Program, r *Report) {
-	r.Rule("C20.marshal", "E1", "the slice returned by Marshal is freshly allocated and not kept by the trie", 1)
+func c20Marshal(p *Program, r *Report) { c20MarshalAs(p, r, "C20.marshal") }
+
+func c20MarshalAs(p *Program, r *Report, rule string) {
+	r.Rule(rule, "E1", "the slice returned by Marshal is freshly allocated, not pooled and not kept by the trie", 1)
 	m := p.Method(p.Trie, "SlimTrie", "Marshal")
 	if m == nil {
 		r.Unk("(*trie.SlimTrie).Marshal", "", "anchor not found")
@@ -139,6 +141,11 @@ func c20Marshal(p *Program, r *Report) {
 			n++
 			if o.kind != kAlloc && o.kind != kExt {
 				bad = append(bad, fmt.Sprintf("%s: result may point to %s", p.Pos(ret.Pos()), o))
+			}
+			// memory taken from a sync.Pool is exclusive only until it is Put back: bytes that live
+			// in a pooled buffer are overwritten by a later call
+			if strings.Contains(o.String(), "(*sync.Pool).Get") {
+				bad = append(bad, fmt.Sprintf("%s: result may point into an object taken from a sync.Pool (%s): a later Marshal re-uses that memory", p.Pos(ret.Pos()), o))
 			}
 		}
 	}
